@@ -18,6 +18,7 @@ import (
 	"os"
 	"path/filepath"
 	"strings"
+	"sync"
 
 	"github.com/saucelabs/forwarder"
 	"github.com/saucelabs/forwarder/log"
@@ -53,7 +54,10 @@ type sobs struct {
 
 type srec struct {
 	sreq
-	Obs sobs `json:"_obs"`
+	// Concurrent: observed while other goroutines were running the same shared stack; a replay re-runs the
+	// whole concurrent stream (a single sequential call cannot reproduce an interleaving)
+	Concurrent bool `json:"concurrent,omitempty"`
+	Obs        sobs `json:"_obs"`
 }
 
 type stackRig struct {
@@ -248,6 +252,69 @@ func genSreq(r *rng.R, tag string) sreq {
 	return c
 }
 
+// concurrentStack hammers the shared stack from nG goroutines with requests whose Via chains, protocol versions and
+// X-Forwarded-For values differ per goroutine.  All calls are made on the real stack; the cases handed to Coq are
+// every call whose Via / X-Forwarded-For output is not the plain concatenation a sequential call produces (at most
+// 40) plus a sample of the others -- the selection only chooses what to show, the verdict is Coq's.
+func concurrentStack(sr *stackRig, r *rng.R, nG, nIter int) ([]sreq, []sobs, int) {
+	type rec struct {
+		c   sreq
+		o   sobs
+		odd bool
+	}
+	out := make([][]rec, nG)
+	seeds := make([]uint64, nG)
+	for g := range seeds {
+		seeds[g] = r.U64()
+	}
+	var wg sync.WaitGroup
+	for g := 0; g < nG; g++ {
+		wg.Add(1)
+		go func(g int) {
+			defer wg.Done()
+			lr := rng.New(seeds[g])
+			for i := 0; i < nIter; i++ {
+				c := sreq{Method: "GET", Scheme: "http", Host: "example.com", Path: "/c", Remote: fmt.Sprintf("10.0.%d.%d:4000", g, i%250), Maj: 1, Min: (g + i) % 2}
+				h := http.Header{}
+				var lines []string
+				for l, n := 0, lr.Intn(4); l < n; l++ {
+					lines = append(lines, fmt.Sprintf("1.%d g%d-i%d-l%d-%s", l%2, g, i, l, strings.Repeat("y", 1+lr.Intn(60))))
+				}
+				if len(lines) > 0 {
+					h["Via"] = lines
+				}
+				if lr.Chance(1, 2) {
+					h["X-Forwarded-For"] = []string{fmt.Sprintf("203.0.%d.%d", g, i%250)}
+				}
+				c.Header = h
+				o := sr.run(c)
+				want := strings.Join(append(append([]string{}, lines...), fmt.Sprintf("1.%d %s", c.Min, sr.tag)), ", ")
+				odd := o.Refused || len(o.Out["Via"]) != 1 || o.Out["Via"][0] != want
+				if odd || i%(nIter/8+1) == 0 {
+					out[g] = append(out[g], rec{c, o, odd})
+				}
+			}
+		}(g)
+	}
+	wg.Wait()
+	var cs []sreq
+	var os []sobs
+	odd := 0
+	for g := range out {
+		for _, x := range out[g] {
+			if x.odd {
+				odd++
+				if odd > 40 {
+					continue
+				}
+			}
+			cs = append(cs, x.c)
+			os = append(os, x.o)
+		}
+	}
+	return cs, os, nG * nIter
+}
+
 func scorpus(tag string) []sreq {
 	base := func(h http.Header) sreq {
 		return sreq{Method: "GET", Scheme: "http", Host: "example.com", Path: "/p", Query: "q=1", Remote: "10.1.2.3:4567", Maj: 1, Min: 1, Header: h}
@@ -302,6 +369,8 @@ func writeMeta(dir string, m any) {
 
 type meta struct {
 	StackCases   int            `json:"stack_cases"`
+	ConcurrentCalls   int       `json:"stack_concurrent_calls"`
+	ConcurrentEmitted int       `json:"stack_concurrent_cases_emitted"`
 	StackRefused int            `json:"stack_refused"`
 	StackMethods map[string]int `json:"stack_methods"`
 	StackShapes  map[string]int `json:"stack_header_shapes"`
@@ -350,14 +419,29 @@ func main() {
 		json.Unmarshal(data, &kind)
 		switch kind.Kind {
 		case "stack":
-			var c sreq
+			var c srec
 			if err := json.Unmarshal(data, &c); err != nil {
 				panic(err)
 			}
-			c.Header = retagHeader(c.Header, sr.tag)
-			o := sr.run(c)
-			writeShard(*out, "scases", 0, "scase", "scase_model_ok", "scase_prop_ok", []string{coqScase(sr.tag, c, o)})
-			writeJSONL(*out, "scases.jsonl", []any{srec{untagSreq(c, sr.tag), o}})
+			if c.Concurrent {
+				cs, os2, n := concurrentStack(sr, r, 8, 2000)
+				var sc []string
+				var sj []any
+				for i := range cs {
+					sc = append(sc, coqScase(sr.tag, cs[i], os2[i]))
+					sj = append(sj, srec{untagSreq(cs[i], sr.tag), true, os2[i]})
+				}
+				writeShard(*out, "scases", 0, "scase", "scase_model_ok", "scase_prop_ok", sc)
+				writeJSONL(*out, "scases.jsonl", sj)
+				m.Shards = []string{"scases_000.v"}
+				m.ShardSize = len(sc)
+				fmt.Printf("replay stack (concurrent stream): %d calls on the shared stack, %d cases handed to Coq\n", n, len(sc))
+				break
+			}
+			c.sreq.Header = retagHeader(c.sreq.Header, sr.tag)
+			o := sr.run(c.sreq)
+			writeShard(*out, "scases", 0, "scase", "scase_model_ok", "scase_prop_ok", []string{coqScase(sr.tag, c.sreq, o)})
+			writeJSONL(*out, "scases.jsonl", []any{srec{untagSreq(c.sreq, sr.tag), false, o}})
 			m.Shards = []string{"scases_000.v"}
 			fmt.Printf("replay stack: refused=%v status=%d out=%q\n", o.Refused, o.Status, o.Out)
 		default:
@@ -381,13 +465,27 @@ func main() {
 		m.StackMethods[c.Method]++
 		shapeStats(&m, c)
 		sc = append(sc, coqScase(sr.tag, c, o))
-		sj = append(sj, srec{untagSreq(c, sr.tag), o})
+		sj = append(sj, srec{untagSreq(c, sr.tag), false, o})
 	}
 	for _, c := range scorpus(sr.tag) {
 		add(c)
 	}
 	for len(sc) < nStack {
 		add(genSreq(r, sr.tag))
+	}
+	// concurrent use of the one shared modifier stack (every client connection runs it on its own goroutine)
+	nG, nIter := 8, 2000
+	if *tier == "thorough" {
+		nG, nIter = 16, 20000
+	}
+	ccases, cobs, ncalls := concurrentStack(sr, r, nG, nIter)
+	m.ConcurrentCalls, m.ConcurrentEmitted = ncalls, len(ccases)
+	for i, c := range ccases {
+		if cobs[i].Refused {
+			m.StackRefused++
+		}
+		sc = append(sc, coqScase(sr.tag, c, cobs[i]))
+		sj = append(sj, srec{untagSreq(c, sr.tag), true, cobs[i]})
 	}
 	m.StackCases = len(sc)
 	for i := 0; i*m.ShardSize < len(sc); i++ {
